@@ -616,3 +616,23 @@ func phiTrueSites(fi *engine.FuncInfo, ph *ssa.Phi) []decisionSite {
 	walk(ph)
 	return out
 }
+
+// postedListOwner: the shard whose list of targets to post the map update fills: the map is x.newTargets, or a map
+// made in the function that is stored into x.newTargets (built first, installed afterwards).
+func (c *coord) postedListOwner(mu *ssa.MapUpdate) (ssa.Value, bool) {
+	if x, ok := loadOfField(mu.Map, c.fNewTargets); ok {
+		return x, true
+	}
+	mm, ok := mu.Map.(*ssa.MakeMap)
+	if !ok || mm.Referrers() == nil {
+		return nil, false
+	}
+	for _, rr := range *mm.Referrers() {
+		if st, ok := rr.(*ssa.Store); ok && st.Val == ssa.Value(mm) {
+			if fa, ok := st.Addr.(*ssa.FieldAddr); ok && engine.FieldOf(fa) == c.fNewTargets {
+				return fa.X, true
+			}
+		}
+	}
+	return nil, false
+}
